@@ -46,10 +46,6 @@ class Plan:
 PLAN = Plan()
 
 
-class InjectedFault(Exception):
-    """Marker mixin so that the harness can recognise its own exceptions."""
-
-
 def _make_exc(kind, i):
     cls = RAISE_KINDS[kind]
     return cls(f"injected {kind} at statement {i}")
@@ -297,7 +293,7 @@ def diff_images(a, b, limit=4):
     return "; ".join(out)
 
 
-# ---- forked kill run ----------------------------------------------------------------------------------------------------------
+# ---- forked kill run ------------------------------------------------------------------------------------------------
 def run_killed(fn, mode, k):
     """Run fn() in a forked child with the plan (mode, k); the child dies by os._exit at the planned instant.
     Returns the child's exit code (EXIT_PLANNED when the instant was reached)."""
